@@ -25,6 +25,7 @@ type scanLoop struct {
 	Fn         *ssa.Function
 	L          *loop
 	Cell       *ssa.Alloc
+	Param      *ssa.Parameter // the slice is a parameter used directly
 	Descending bool
 	IndexPhi   *ssa.Phi
 	// IndexExpr: for descending loops the values used as element index
@@ -69,9 +70,14 @@ func (c *Ctx) loopOver(f *ssa.Function, l *loop) *scanLoop {
 	if !ok {
 		return nil
 	}
+	var lenParam *ssa.Parameter
 	lenCell := func(v ssa.Value) *ssa.Alloc {
 		call, ok := v.(*ssa.Call)
 		if !ok || !isBuiltin(&call.Call, "len") {
+			return nil
+		}
+		if p, ok := call.Call.Args[0].(*ssa.Parameter); ok {
+			lenParam = p
 			return nil
 		}
 		u, ok := call.Call.Args[0].(*ssa.UnOp)
@@ -92,7 +98,7 @@ func (c *Ctx) loopOver(f *ssa.Function, l *loop) *scanLoop {
 	case token.LSS:
 		// idx < len(cell), idx = phi+1 (rotated range) or phi
 		cell := lenCell(cmp.Y)
-		if cell == nil {
+		if cell == nil && lenParam == nil {
 			return nil
 		}
 		var phi *ssa.Phi
@@ -104,7 +110,7 @@ func (c *Ctx) loopOver(f *ssa.Function, l *loop) *scanLoop {
 		if phi == nil || phi.Block() != head {
 			return nil
 		}
-		return &scanLoop{Fn: f, L: l, Cell: cell, IndexPhi: phi}
+		return &scanLoop{Fn: f, L: l, Cell: cell, Param: lenParam, IndexPhi: phi}
 	case token.GTR, token.GEQ:
 		phi, ok := cmp.X.(*ssa.Phi)
 		if !ok || phi.Block() != head {
